@@ -24,6 +24,8 @@ pub enum InvalidKind {
     EvalWhitespace,
     JumpUnknown { reset: bool },
     JumpHostile { reset: bool },
+    /// valid path, no call-stack reset, with arguments, while the story is inside an ink function
+    JumpInsideFunction,
     RemoveMissingFlow,
     RemoveDefaultFlow,
     RemoveUnregisteredObserver { specific: bool },
